@@ -16,7 +16,50 @@ pub fn doc_text(classes: usize, flavour: u64) -> String {
     for i in 0..classes {
         t.push_str(&format!("class C{i}<int a> : Base {{ int x{flavour} = a; }}\ndef d{i} : C{i}<{i}>;\n"));
     }
+    // one statement of every other kind the indexer walks (whatever a handler of one of them does - take a
+    // lock, write somewhere - happens on a worker thread that holds a snapshot)
+    t.push_str(&format!(
+        "defvar v{flavour} = {flavour};\nassert !ge(v{flavour}, 0), \"never negative\";\ndump \"v is \" # v{flavour};\nforeach i = [1, 2] in def f#i : Base;\nif !eq(v{flavour}, 1) then {{ def t1 : Base; }} else {{ def e1 : Base; }}\nlet b = 2 in def l1 : Base;\ndefset list<Base> S = {{ def m1 : Base; }}\nmulticlass M<int k> {{ def _a : Base {{ int q = k; }} }}\ndefm X : M<3>;\n"
+    ));
     t
+}
+
+/// The server binary hands its standard output to the transport for as long as it runs
+/// (crates/lsp/src/main.rs: `PipeStdout::lock_tokio()` keeps the lock), so whatever else writes there
+/// waits for ever. The in-process servers of this check talk over pipes of their own; to give their
+/// threads the surroundings of the real binary, standard output is locked while a case runs (the
+/// harness itself prints only between cases and in the parent process).
+pub struct StdoutHeld;
+
+static HOLD: std::sync::Mutex<(usize, Option<std::sync::mpsc::Sender<()>>)> = std::sync::Mutex::new((0, None));
+
+impl StdoutHeld {
+    pub fn new() -> Self {
+        let mut g = HOLD.lock().unwrap_or_else(|e| e.into_inner());
+        if g.0 == 0 {
+            let (tx, rx) = std::sync::mpsc::channel::<()>();
+            let (ack_tx, ack_rx) = std::sync::mpsc::channel::<()>();
+            std::thread::spawn(move || {
+                let _lock = std::io::stdout().lock();
+                let _ = ack_tx.send(());
+                let _ = rx.recv();
+            });
+            let _ = ack_rx.recv();
+            g.1 = Some(tx);
+        }
+        g.0 += 1;
+        StdoutHeld
+    }
+}
+
+impl Drop for StdoutHeld {
+    fn drop(&mut self) {
+        let mut g = HOLD.lock().unwrap_or_else(|e| e.into_inner());
+        g.0 -= 1;
+        if g.0 == 0 {
+            g.1 = None;
+        }
+    }
 }
 
 pub fn request_params(kind: &str, uri: &str) -> (String, Value) {
@@ -52,6 +95,9 @@ pub fn await_or_diagnose(c: &mut Client, id: i64, what: &str, patience: Duration
             Err(RecvError::Timeout) => {
                 waited += step;
                 let (mut blocked, states) = all_blocked(&c.thread_tag, 4, Duration::from_millis(40));
+                if std::env::var("VERIF_C08_DEBUG").is_ok() {
+                    eprintln!("{waited:?} blocked={blocked} {:?}", states.iter().map(|t| format!("{}:{}:{}:{}", t.tid, t.state, t.switches, t.wchan.trim())).collect::<Vec<_>>());
+                }
                 if blocked && waited >= Duration::from_millis(800) {
                     // a deadlock lasts. On a loaded machine the answer may be on its way (written by the
                     // server, not yet read by this client's own threads) while every server thread sleeps:
@@ -66,17 +112,20 @@ pub fn await_or_diagnose(c: &mut Client, id: i64, what: &str, patience: Duration
                         }
                     }
                     let (still, later) = all_blocked(&c.thread_tag, 4, Duration::from_millis(40));
-                    blocked = still && later == states;
+                    blocked = still && crate::lspc::same_standstill(&later, &states);
                 }
                 if blocked && waited >= Duration::from_millis(800) {
                     let dump: Vec<String> = states.iter().map(|t| format!("tid {} state {} syscall {} wchan {}", t.tid, t.state, t.syscall, t.wchan.trim())).collect();
                     return Err(Some(Failure::new(
                         "C08.deadlock",
                         "C08.deadlock",
-                        format!("no response to {what} after {:?}; every server thread sleeps with unchanged context-switch counters over 4 samples: {dump:?}", waited),
+                        format!("no response to {what} after {:?}; every server thread sleeps (those that wait for a lock with unchanged context-switch counters, the main loop waiting for input) at every sample since: {dump:?}", waited),
                     )));
                 }
                 if waited >= patience {
+                    if std::env::var("VERIF_C08_DEBUG").is_ok() {
+                        eprintln!("inconclusive wait for {what}: {:?}", states.iter().map(|t| format!("tid {} state {} syscall {} wchan {}", t.tid, t.state, t.syscall, t.wchan.trim())).collect::<Vec<_>>());
+                    }
                     return Err(None);
                 }
             }
@@ -260,7 +309,29 @@ pub fn run_schedule(handler: &str, requests: &[String], choices: &[String]) -> R
     }
     // phase A (uncontrolled): open the root and let everything finish
     c.did_open(&uris[0], &doc_text(2, 0));
-    if !sched.wait_idle(1, Duration::from_secs(20)) {
+    // (a server that never finishes with the document it was given - every thread asleep, the threads that
+    // wait for a lock never scheduled, for four seconds and more - has stopped making progress)
+    let mut idle = false;
+    let mut standstill: Option<Vec<crate::lspc::ThreadState>> = None;
+    let mut confirmed = 0;
+    for _ in 0..10 {
+        if sched.wait_idle(1, Duration::from_secs(2)) {
+            idle = true;
+            break;
+        }
+        let (blocked, states) = all_blocked(&c.thread_tag, 4, Duration::from_millis(40));
+        if blocked && standstill.as_ref().map(|s| crate::lspc::same_standstill(s, &states)).unwrap_or(false) {
+            confirmed += 1;
+            if confirmed >= 2 {
+                let dump: Vec<String> = states.iter().map(|t| format!("tid {} state {} wchan {}", t.tid, t.state, t.wchan.trim())).collect();
+                return finish(c, vec![], Outcome::Deadlock(format!("after didOpen of the root the background work never ends: a task is still alive and every server thread sleeps, unscheduled for more than four seconds: {dump:?}")), 0);
+            }
+        } else {
+            confirmed = 0;
+        }
+        standstill = if blocked { Some(states) } else { None };
+    }
+    if !idle {
         return finish(c, vec![], Outcome::Inconclusive("setup did not become idle".into()), 0);
     }
     sched.set_controlled(true);
@@ -590,6 +661,7 @@ impl Property for C08 {
         ]
     }
     fn run_case(&self, _ctx: &Ctx, case: &Case) -> Verdict {
+        let _stdout = StdoutHeld::new();
         match case["kind"].as_str() {
             Some("sched") => run_sched_case(case),
             Some("burst") => run_burst(case),
